@@ -149,6 +149,21 @@ class Safe:
         self.safe_params = safe_params
         self.env: dict[str, str | None] = {}
         self.triaged: set[tuple[str, str]] = set()
+        self._rd: dict[int, object] = {}
+
+    def _reaching(self, fi, name_node: ast.Name):  # noqa: ANN001, ANN202
+        from .labels import ReachDefs
+
+        rd = self._rd.get(id(fi.node))
+        if rd is None:
+            try:
+                rd = ReachDefs(fi.node)
+            except Exception:  # noqa: BLE001
+                rd = False
+            self._rd[id(fi.node)] = rd
+        if rd is False:
+            return None
+        return rd.reaching(name_node.id, name_node)  # type: ignore[union-attr]
 
     def closed_type(self, t: str) -> bool:
         if t in ('?', 'Any'):
@@ -330,6 +345,13 @@ class Safe:
             defs = sl.defs.get(e.id)
             if not defs:
                 return None
+            # only the definitions that can reach this use (a local reused for something else further up or down
+            # the function says nothing about this value)
+            reach = self._reaching(fi, e)
+            if reach is not None:
+                kept = [(v, st) for v, st in defs if isinstance(st, ast.comprehension) or id(st) in reach]
+                if kept:
+                    defs = kept
             for v, st in defs:
                 if isinstance(st, (ast.For, ast.AsyncFor, ast.comprehension)):
                     # loop variable: elements of the iterable
